@@ -133,6 +133,8 @@ struct iluk {
             w.sort();
 
             for(const nonzero &e : w.nz) {
+                if (e.lev > prm.k) continue;
+
                 if (e.col < i) {
                     Lcol.push_back(e.col);
                     Lval.push_back(e.val);
@@ -237,17 +239,24 @@ struct iluk {
             {}
 
             void add(ptrdiff_t col, const value_type &val, int lev) {
+                // Every update is accumulated, even when its level exceeds the
+                // level of fill: the entry may still become admissible through
+                // a path of lower level.  Entries that stay above the level of
+                // fill are never used for elimination and are dropped when the
+                // row is stored.
                 if (idx[col] < 0) {
-                    if (lev <= lfil) {
-                        int p = nz.size();
-                        idx[col] = p;
-                        nz.push_back(nonzero(col, val, lev));
-                        if (col < dia) q.push(p);
-                    }
+                    int p = nz.size();
+                    idx[col] = p;
+                    nz.push_back(nonzero(col, val, lev));
+                    if (lev <= lfil && col < dia) q.push(p);
                 } else {
                     nonzero &a = nz[idx[col]];
                     a.val += val;
-                    a.lev = std::min(a.lev, lev);
+                    if (lev < a.lev) {
+                        if (a.lev > lfil && lev <= lfil && col < dia)
+                            q.push(idx[col]);
+                        a.lev = lev;
+                    }
                 }
             }
 
